@@ -77,8 +77,12 @@ func (f *Frame) execCall(ins ssa.Instruction, c *ssa.CallCommon, st *State) Val 
 		}
 	} else if !c.IsInvoke() {
 		fv := f.val(c.Value, st)
-		if fv.Fn != nil {
+		if fv.Fn != nil && len(fv.Alts) == 0 {
 			target, env = fv.Fn, fv.Env
+		} else if len(fv.Alts) > 0 {
+			if r, ok := f.callFnValue(fv, args, st, sig, anchor); ok {
+				return r
+			}
 		}
 	}
 	if target != nil {
@@ -104,6 +108,7 @@ func (f *Frame) execCall(ins ssa.Instruction, c *ssa.CallCommon, st *State) Val 
 	// unknown call: havoc the heap
 	u.abstractf("%s: call to %s has no contract: heap havoced, result unconstrained", u.name, orDyn(name, c))
 	u.havocAll(st)
+	f.havocGhosts(st)
 	// closures passed to unknown code may run: havoc the cells they write
 	f.havocClosureArgs(args, st)
 	return resultVal(u, st, sig, "r_"+sanitize(name))
@@ -140,6 +145,8 @@ func (f *Frame) inline(target *ssa.Function, env []Val, args []Val, st *State) V
 	suffix := strings.TrimPrefix(canonFn(target), canonFn(rootFn(target)))
 	if target.Parent() == nil {
 		suffix = "@" + target.Name()
+	} else if rootFn(target) != rootFn(u.fn) {
+		suffix = "@" + rootFn(target).Name() + suffix
 	}
 	nf := u.newFrame(target, suffix, false)
 	for i, p := range target.Params {
@@ -253,6 +260,7 @@ func (f *Frame) applyContract(spec *UnitSpec, name string, c *ssa.CallCommon, si
 	if callee := c.StaticCallee(); callee != nil {
 		calleePkg = rootFn(callee).Pkg
 	}
+	calleeGhosts := map[string]TV{}
 	mkEnv := func(cur *State, extra map[string]TV) *Env {
 		e := &Env{u: u, st: cur, old: pre, bound: map[string]boundVar{}, pkg: pkg, qctr: &u.qctr}
 		e.lookup = func(n string) (TV, bool) {
@@ -266,6 +274,18 @@ func (f *Frame) applyContract(spec *UnitSpec, name string, c *ssa.CallCommon, si
 			}
 			if strings.HasSuffix(n, "0") {
 				if tv, ok := argMap[n[:len(n)-1]]; ok {
+					return tv, true
+				}
+			}
+			// ghost variables local to the callee's contract: unknown to the caller (an arbitrary value per call)
+			for _, g := range spec.Ghosts {
+				if g.Name == n {
+					if tv, ok := calleeGhosts[n]; ok {
+						return tv, true
+					}
+					srt, ty := e.resolveType(g.Type)
+					tv := TV{T: u.defs.Fresh("cg_"+n, srt), Ty: ty}
+					calleeGhosts[n] = tv
 					return tv, true
 				}
 			}
@@ -718,5 +738,73 @@ func (f *Frame) useLemma(c *Clause, env *Env, st *State) {
 		} else {
 			u.LemmasUsed[call.Fn] = true
 		}
+	}
+}
+
+// callFnValue invokes a function-valued Val with the given arguments by inlining its body; with several
+// alternatives (function-valued phi) the state is split per alternative and merged again.
+func (f *Frame) callFnValue(fv Val, args []Val, st *State, sig *types.Signature, hint string) (Val, bool) {
+	u := f.u
+	alts := fv.fnAlts()
+	if len(alts) == 0 || u.inlineDepth >= maxInlineDepth {
+		return Val{}, false
+	}
+	for _, a := range alts {
+		if len(a.Fn.Blocks) == 0 {
+			return Val{}, false
+		}
+	}
+	if len(alts) == 1 && alts[0].Cond.S == "true" {
+		return f.inlineOrContract(alts[0].Fn, alts[0].Env, args, st, sig, hint), true
+	}
+	var sts []*State
+	var rets []Val
+	for _, a := range alts {
+		b := st.clone()
+		u.assume(b, a.Cond)
+		r := f.inlineOrContract(a.Fn, a.Env, args, b, sig, hint)
+		sts = append(sts, b)
+		rets = append(rets, r)
+	}
+	merged := u.mergeStates(sts)
+	var res Val
+	for i := len(rets) - 1; i >= 0; i-- {
+		if i == len(rets)-1 {
+			res = rets[i]
+		} else if rets[i].T.S != "" && res.T.S != "" {
+			res = Val{T: Ite(sts[i].pc, rets[i].T, res.T), Ty: rets[i].Ty}
+		}
+	}
+	if res.T.S != "" {
+		res.T = u.defs.Define("altret", res.T)
+	}
+	*st = *merged
+	return res, true
+}
+
+// inlineOrContract uses the closure's own contract when it has one, else inlines it.
+func (f *Frame) inlineOrContract(target *ssa.Function, env []Val, args []Val, st *State, sig *types.Signature, hint string) Val {
+	u := f.u
+	if spec, ok := u.eng.Contracts[canonFn(target)]; ok && !spec.Inline {
+		cc := &ssa.CallCommon{Value: target}
+		return f.applyContract(spec, canonFn(target), cc, target.Signature, args, st, hint)
+	}
+	return f.inline(target, env, args, st)
+}
+
+// havocGhosts forgets every global ghost variable except the held-lock set (callees without a contract are
+// assumed lock-neutral; everything else they may have changed).
+func (f *Frame) havocGhosts(st *State) {
+	u := f.u
+	env := &Env{u: u, st: st, bound: map[string]boundVar{}, qctr: &u.qctr}
+	for _, g := range sortedKeys(u.eng.GlobalGhosts) {
+		if g == "$held" {
+			continue
+		}
+		srt, _ := env.resolveType(u.eng.GlobalGhosts[g])
+		if _, has := st.ghost[g]; !has {
+			u.ghostInit(g, srt)
+		}
+		st.ghost[g] = u.defs.Fresh("gx_"+g, srt)
 	}
 }
